@@ -214,6 +214,11 @@ def check(run, project):
     run.explanation = ("def-use comparison of the decoder's (width, byte order, signedness) sources with the encoder's "
                        "defaults and delegation chain; shape of to_bytes(event)/unmarshal; who-defines-to_bytes over all "
                        "layout modules; range containment of every valid set (exhaustive over L)")
+    # B9 (= C07-NI-1): an input strict mode ACCEPTS re-encodes to itself only if strict mode never swallows a size error: every
+    # handler re-raises in strict mode (else a region is skipped, its bytes appear in no event, and the decode still succeeds)
+    from ..report import RuleView as _RVm
+    from . import c07 as _c07
+    _c07.check(_RVm(run, "NI-1", "B9"), project)
     b1(run, project, roles)
     primitive_event_once(run, roles, "B3")
     b2_b3(run, project)
